@@ -859,6 +859,9 @@ impl<P: SimPrefix> World<P> {
         // ---- model twin: replay the acts on the model, producing the expected observations
         let model = &mut mw.model;
         let mut exp: Vec<EObs> = vec![];
+        // re-inserting through a re-wrapped OccupiedEntry after remove(): the property does not say
+        // whether the node keeps its old representation or takes the entry's; accept either
+        let mut ambiguous_raw = false;
         let mut cb = panic_at;
         let mut fire = move || -> bool {
             match cb {
@@ -971,6 +974,7 @@ impl<P: SimPrefix> World<P> {
                                 OAct::RewrapOrInsert(v) => {
                                     if let Some(old_raw) = removed {
                                         model.insert(key, (old_raw, *v));
+                                        ambiguous_raw = true;
                                     }
                                     exp.push(EObs::Ref(model[&key].1));
                                     break 'outer;
@@ -981,6 +985,7 @@ impl<P: SimPrefix> World<P> {
                                             break 'outer;
                                         }
                                         model.insert(key, (old_raw, *v ^ (1 << 50)));
+                                        ambiguous_raw = true;
                                     } else {
                                         if fire() {
                                             break 'outer;
@@ -1032,6 +1037,14 @@ impl<P: SimPrefix> World<P> {
                         }
                     }
                     break;
+                }
+            }
+        }
+        if ambiguous_raw {
+            let stored = mw.real.get_key_value(&P::make(k)).map(|(p, _)| p.raw());
+            if let (Some(s), Some(x)) = (stored, mw.model.get_mut(&key)) {
+                if s == k {
+                    x.0 = k;
                 }
             }
         }
